@@ -179,7 +179,7 @@ def make_traj(rng, family):
         pitch = _sinus(rng.uniform(-10, 10), 0.0, 0.0, 0.0, 0.0)
         head = _sinus(math.degrees(az), 0.0, 0.0, 0.0, 0.0)
     elif family == 'helix':
-        om = rng.uniform(0.1, 0.6)                        # turn rate rad/s
+        om = min(rng.uniform(0.1, 0.6), 30.0 / speed)     # turn rate rad/s, centripetal acceleration <= 3 g
         rad = speed / om                                  # turn radius m
         lat = _sinus(lat0, 0.0, rad / rm / D2R, om, rng.uniform(0, 6))
         lon = _sinus(lon0, 0.0, rad / (rm * coslat) / D2R, om, rng.uniform(0, 6) + math.pi / 2)
@@ -236,12 +236,13 @@ def synthesise(time, tr, form, sensor_type):
     return sim.generate_imu(time, tr['lla'][0], tr['rph'], tr['vel'], sensor_type)
 
 
-def imu_errors(traj, dt, total, form, sensor_type, trim=3):
+def imu_errors(traj, dt, total, form, sensor_type, trim=3, tr=None):
     """max |gyro error| [rad/s], max |accel error| [m/s^2] (increments divided by dt), plus the returned
     trajectory's deviation from the analytic one (position [m], velocity [m/s])."""
     n = int(round(total / dt)) + 1
     time = np.arange(n) * dt
-    tr = truth(traj, time)
+    if tr is None:
+        tr = truth(traj, time)
     trj, imu = synthesise(time, tr, form, sensor_type)
     g = imu[['gyro_x', 'gyro_y', 'gyro_z']].values
     a = imu[['accel_x', 'accel_y', 'accel_z']].values
@@ -277,3 +278,268 @@ def closed_loop(trj, imu, sensor_type):
     m0 = transform.mat_from_rph(ref[['roll', 'pitch', 'heading']].values)
     datt = np.abs(np.einsum('kji,kjl->kil', m0, m1) - np.eye(3)).max()
     return dict(pos=float(dpos), vel=float(dvel), att=float(datt))
+
+
+# ---------------------------------------------------------------------------
+# thresholds (calibrated on the unchanged tree; see the module docstring)
+#   noise: second differences of r_i ~ 6.4e6 m in binary64 give ~1.5e-8 / dt^2 m/s^2 of rounding noise in the
+#   accelerometer channel, the gyro channel sits at ~1e-13 rad/s; floors are >= 100x these.
+ACC_FLOOR = lambda dt: 4e-6 / dt ** 2
+GYRO_FLOOR = 1e-10
+FALL = 0.85            # error(dt/2) <= FALL * error(dt)   (expected 0.5 .. 0.06) unless below the floor
+ABS = dict(gyro=2e-2, accel=1e-1)                  # at dt <= 0.05 s; >= 100x the observed interpolation error
+CL_FLOOR = dict(pos=1e-3, vel=1e-4, att=1e-8)
+CL_FALL = 0.7          # expected 0.25 .. 0.125
+CL_ABS = dict(pos=5.0, vel=3.0, att=3e-2)          # after 4 s at dt = 0.05 s
+TOTAL = 4.0
+
+
+def _case_rng(seed, k):
+    return random.Random(seed * 1000003 + 7919 * k + 3)
+
+
+def traj_case(seed, k, family, dts, want_closed_loop=True):
+    """all checks on one analytic trajectory; returns (list of failure strings, summary dict)."""
+    traj = make_traj(_case_rng(seed, k), family)
+    fails = []
+    summ = {}
+    imus = {}
+    truths = {dt: truth(traj, np.arange(int(round(TOTAL / dt)) + 1) * dt) for dt in dts}
+    for form in FORMS:
+        for st in ('rate', 'increment'):
+            prev = None
+            for dt in dts:
+                e, (trj, imu, tr) = imu_errors(traj, dt, TOTAL, form, st, tr=truths[dt])
+                imus[(form, st, dt)] = imu
+                summ[f"{form}/{st}/{dt}"] = e
+                fl = dict(gyro=GYRO_FLOOR, accel=ACC_FLOOR(dt))
+                for ch in ('gyro', 'accel'):
+                    if not np.isfinite(e[ch]):
+                        fails.append(f"{form}/{st} dt={dt}: {ch} reading not finite")
+                    if prev is not None and e[ch] > max(FALL * prev[ch], fl[ch]):
+                        fails.append(f"{form}/{st}: {ch} error does not fall with the sampling interval: "
+                                     f"{prev[ch]:.3e} -> {e[ch]:.3e} at dt={dt}")
+                    if dt <= 0.05 and e[ch] > ABS[ch] + fl[ch]:
+                        fails.append(f"{form}/{st} dt={dt}: {ch} error {e[ch]:.3e} above bound {ABS[ch]}")
+                prev = e
+                if want_closed_loop:
+                    cl = closed_loop(trj, imu, st)
+                    summ[f"loop/{form}/{st}/{dt}"] = cl
+    # the three forms describe the same motion
+    for st in ('rate', 'increment'):
+        for other in ('pos', 'init+vel'):
+            prev = None
+            for dt in dts:
+                a, b = imus[('pos+vel', st, dt)].values, imus[(other, st, dt)].values
+                sc = 1.0 if st == 'rate' else dt
+                d = dict(gyro=float(np.abs(a[3:-3, :3] - b[3:-3, :3]).max()) / sc,
+                         accel=float(np.abs(a[3:-3, 3:] - b[3:-3, 3:]).max()) / sc)
+                fl = dict(gyro=GYRO_FLOOR, accel=2 * ACC_FLOOR(dt))
+                for ch in ('gyro', 'accel'):
+                    if prev is not None and d[ch] > max(FALL * prev[ch], fl[ch]):
+                        fails.append(f"forms pos+vel and {other} ({st}): {ch} difference does not fall: "
+                                     f"{prev[ch]:.3e} -> {d[ch]:.3e} at dt={dt}")
+                    if dt <= 0.05 and d[ch] > 2 * ABS[ch] + fl[ch]:
+                        fails.append(f"forms pos+vel and {other} ({st}) dt={dt}: {ch} difference {d[ch]:.3e}")
+                prev = d
+    if want_closed_loop:
+        for form in FORMS:
+            for st in ('rate', 'increment'):
+                prev = None
+                for dt in dts:
+                    cl = summ[f"loop/{form}/{st}/{dt}"]
+                    for ch in ('pos', 'vel', 'att'):
+                        if not np.isfinite(cl[ch]):
+                            fails.append(f"closed loop {form}/{st} dt={dt}: {ch} not finite")
+                        if prev is not None and cl[ch] > max(CL_FALL * prev[ch], CL_FLOOR[ch]):
+                            fails.append(f"closed loop {form}/{st}: {ch} error does not fall: "
+                                         f"{prev[ch]:.3e} -> {cl[ch]:.3e} at dt={dt}")
+                        if dt <= 0.05 and cl[ch] > CL_ABS[ch]:
+                            fails.append(f"closed loop {form}/{st} dt={dt}: {ch} error {cl[ch]:.3e} above {CL_ABS[ch]}")
+                    prev = cl
+    return fails, dict(meta=traj.meta, errors=summ)
+
+
+def rest_case(seed, k, dt=0.1, n=12):
+    """a body at rest: gyro == C^T rate_n, accel == - C^T gravity_n for the three forms and both types."""
+    rng = _case_rng(seed, 100000 + k)
+    lat = rng.choice([-1, 1]) * rng.uniform(0, 85) if k % 7 else rng.choice([-85.0, 0.0, 85.0])
+    lon = rng.uniform(-180, 180)
+    alt = rng.uniform(-400, 20000)
+    rph = [rng.uniform(-180, 180), rng.uniform(-89, 89), rng.uniform(-180, 180)]
+    time = np.arange(n) * dt
+    phi = lat * D2R
+    C = cnb_from_rph(*(np.array(rph) * D2R))
+    g = G_E * (1 + G_F * math.sin(phi) ** 2) / math.sqrt(1 - E2 * math.sin(phi) ** 2) * (1 - 2 * alt / A_E)
+    w_true = C.T @ np.array([W_E * math.cos(phi), 0.0, -W_E * math.sin(phi)])
+    f_true = -C.T @ np.array([0.0, 0.0, g])
+    tr = dict(lla=np.tile([lat, lon, alt], (n, 1)), rph=np.tile(rph, (n, 1)), vel=np.zeros((n, 3)))
+    fails = []
+    worst = dict(gyro=0.0, accel=0.0)
+    for form in FORMS:
+        for st in ('rate', 'increment'):
+            trj, imu = synthesise(time, tr, form, st)
+            sc = 1.0 if st == 'rate' else dt
+            eg = float(np.abs(imu.values[:, :3] / sc - w_true).max())
+            ea = float(np.abs(imu.values[:, 3:] / sc - f_true).max())
+            worst['gyro'] = max(worst['gyro'], eg)
+            worst['accel'] = max(worst['accel'], ea)
+            if not (eg <= 1e-11):
+                fails.append(f"at rest, {form}/{st}: gyro differs from C^T rate_n by {eg:.3e} rad/s")
+            if not (ea <= ACC_FLOOR(dt)):
+                fails.append(f"at rest, {form}/{st}: accel differs from -C^T gravity_n by {ea:.3e} m/s^2")
+            if np.abs(trj[['lat', 'lon', 'alt']].values - [lat, lon, alt]).max() > 1e-9 or \
+                    np.abs(trj[['VN', 'VE', 'VD']].values).max() > 1e-6:
+                fails.append(f"at rest, {form}/{st}: returned trajectory moves")
+    return fails, dict(lat=lat, lon=lon, alt=alt, rph=rph, worst=worst)
+
+
+def poly_case(seed, k):
+    """_compute_increment_readings against Gauss-Legendre quadrature of the polynomial model of the theorem
+    (exact for degree 7): used by the falsifier to produce a concrete witness when the proof breaks."""
+    from pyins import sim
+    rng = _case_rng(seed, 200000 + k)
+    dt = rng.uniform(0.005, 0.1)
+    a, b, c, d, e = [np.array([rng.uniform(-s, s) for _ in range(3)]) for s in (1.0, 3.0, 5.0, 30.0, 50.0)]
+    gy, ac = sim._compute_increment_readings(np.array([[dt]]), a[None], b[None], c[None], d[None], e[None])
+    x, w = np.polynomial.legendre.leggauss(6)
+    G = np.zeros(3)
+    F = np.zeros(3)
+    for xi, wi in zip(x, w):
+        t = 0.5 * dt * (xi + 1)
+        th = a * t + b * t * t + c * t ** 3
+        thd = a + 2 * b * t + 3 * c * t * t
+        f = d + e * t
+        G += 0.5 * dt * wi * (thd - 0.5 * np.cross(th, thd) + np.cross(th, np.cross(th, thd)) / 6)
+        F += 0.5 * dt * wi * (f - np.cross(th, f) + 0.5 * np.cross(th, np.cross(th, f)))
+    eg = float(np.abs(gy[0] - G).max())
+    ea = float(np.abs(ac[0] - F).max())
+    fails = []
+    if eg > 1e-12 * max(1.0, np.abs(G).max()):
+        fails.append(f"gyro increment is not the integral of theta' - 1/2 th x th' + 1/6 th x (th x th'): off by {eg:.3e}")
+    if ea > 1e-12 * max(1.0, np.abs(F).max()):
+        fails.append(f"accel increment is not the integral of (I - [th x] + 1/2 [th x]^2)(d + e t): off by {ea:.3e}")
+    return fails, dict(dt=dt, a=list(a), b=list(b), c=list(c), d=list(d), e=list(e))
+
+
+FAMILIES = ('gc', 'helix', 'tumble')
+
+
+def numeric(r, n_traj, n_rest, dts, seed=None, closed=True):
+    seed = r.seed if seed is None else seed
+    out = []
+    dist = {}
+    for k in range(n_traj):
+        fam = FAMILIES[k % 3]
+        fails, summ = traj_case(seed, k, fam, dts, closed)
+        dist[fam] = dist.get(fam, 0) + 1
+        for form in FORMS:
+            for st in ('rate', 'increment'):
+                for dt in dts:
+                    r.case(('traj', fam, k, form, st, dt),
+                           sample=dict(kind='traj', family=fam, k=k, form=form, sensor_type=st, dt=dt,
+                                       meta=summ['meta'], errors=summ['errors'][f"{form}/{st}/{dt}"]))
+        for f in fails[:3]:
+            out.append((f, dict(kind='traj', seed=seed, k=k, family=fam, dts=list(dts), closed_loop=closed, what=f)))
+    for k in range(n_rest):
+        fails, summ = rest_case(seed, k)
+        r.case(('rest', k), sample=dict(kind='rest', **summ))
+        for f in fails[:2]:
+            out.append((f, dict(kind='rest', seed=seed, k=k, what=f)))
+    dist['rest'] = n_rest
+    r.coverage['distribution'] = dict(trajectories=dist, forms=list(FORMS), sensor_types=['rate', 'increment'],
+                                      intervals=list(dts), total_time_s=TOTAL)
+    return out
+
+
+def check(r):
+    r.trusted += [
+        "translator tools/sym.py + tools/ir2coq.py + tools/reg/c03.py (symbolic tracing of sim._compute_increment_readings, "
+        "sim.generate_imu on two samples, earth.py, transform.py)",
+        "scipy CubicHermiteSpline read as THE cubic matching values and first derivatives per interval, PPoly layout "
+        "c[m,k]*(x-x_k)^(3-m), breakpoint x_k evaluated in interval min(k,n-2) (tools/reg/c03.py::_Hermite; validated "
+        "against the real class on 40 random sample pairs each run)",
+        "scipy RotationSpline is opaque: only its documented coefficient array interpolator.c (rotation-vector cubic per "
+        "interval, c[3]=0) is used, as free parameters; its angular-rate output is not modelled",
+        "scipy Rotation.from_euler('ZY'/'xyz') stubs of tools/gen.py (validated numerically each run)",
+        "binary64 rounding not modelled: theorems are over the reals; decimal literals exact, pi/180 read as PI/180, "
+        "np.rad2deg(RATE) read as RATE*(180/PI)",
+        "Spec/NavODE.v (hand-written navigation equations) is the reference physics for C03_specific_force_inverts_rhs "
+        "and C03_angular_rate_inverts_rhs",
+    ]
+    r.assumptions += [
+        "NOT proved: convergence of the scipy spline derivatives to the true derivatives (interpolation error -> 0 with the "
+        "sampling interval); checked numerically by halving tests only",
+        "NOT proved: agreement of the three input forms (position-only form and initial-value form with its latitude fixed "
+        "point are not traced); checked numerically only",
+        "NOT proved: closed loop through strapdown.Integrator (= C01 + theorems here + spline error); checked numerically only",
+        "generate_imu is traced on TWO samples in the position+velocity form; longer inputs run the same vectorised code row-wise",
+        "C03_stationary_* and the gravitation identity need -90 <= lat <= 90 (gravitation_ecef uses sqrt(1 - sin^2) for cos lat)",
+    ]
+    r.generate(['Earth', 'Transform', 'C03Gen'])
+    r.prove('Props/C03.v')
+    if r.tier == 'quick':
+        fails = numeric(r, n_traj=6, n_rest=20, dts=(0.1, 0.05))
+    else:
+        fails = numeric(r, n_traj=45, n_rest=300, dts=(0.1, 0.05, 0.025, 0.0125))
+        for k in range(200):
+            f, rep = poly_case(r.seed, k)
+            r.case(('poly', k))
+            for x in f[:1]:
+                fails.append((x, dict(kind='poly', seed=r.seed, k=k, what=x)))
+    r.coverage['numeric_support'] = dict(failures=len(fails))
+    for what, rep in fails[:5]:
+        r.violation(what, rep)
+    if r.tier == 'thorough':
+        r.hygiene()
+
+
+def falsify(r):
+    """seeded search on the implementation for an input on which the property's own statement fails."""
+    found = []
+    for k in range(60):
+        f, rep = poly_case(r.seed, k)
+        for x in f[:1]:
+            found.append((x, dict(kind='poly', seed=r.seed, k=k, what=x)))
+        if found:
+            break
+    for k in range(40):
+        f, _ = rest_case(r.seed + 1, k)
+        for x in f[:1]:
+            found.append((x, dict(kind='rest', seed=r.seed + 1, k=k, what=x)))
+        if len(found) >= 3:
+            break
+    if len(found) < 3:
+        for k in range(12):
+            f, _ = traj_case(r.seed + 1, k, FAMILIES[k % 3], (0.1, 0.05, 0.025))
+            for x in f[:1]:
+                found.append((x, dict(kind='traj', seed=r.seed + 1, k=k, family=FAMILIES[k % 3],
+                                      dts=[0.1, 0.05, 0.025], closed_loop=True, what=x)))
+            if len(found) >= 3:
+                break
+    for what, rep in found[:5]:
+        r.violation(what, rep)
+
+
+def replay(obj):
+    rep = obj.get('replay', obj)
+    kind = rep.get('kind')
+    print("replaying", rep)
+    if kind == 'traj':
+        fails, summ = traj_case(rep['seed'], rep['k'], rep['family'], tuple(rep['dts']), rep.get('closed_loop', True))
+        print("trajectory:", summ['meta'])
+        for k, v in summ['errors'].items():
+            print("  ", k, v)
+    elif kind == 'rest':
+        fails, summ = rest_case(rep['seed'], rep['k'])
+        print("body at rest:", summ)
+    elif kind == 'poly':
+        fails, summ = poly_case(rep['seed'], rep['k'])
+        print("increment kernel input:", summ)
+    else:
+        print("unknown replay kind")
+        return 0
+    for f in fails:
+        print("FAIL:", f)
+    print("still failing" if fails else "passes now")
+    return 1 if fails else 0
